@@ -257,6 +257,10 @@ def build(conn):
         for rec in g:
             if idx in tickets and ticket_rec is not None:
                 fl["s"].append(ticket_rec(idx, tickets[idx]))
+            if conn.get("alert_mid") is not None and idx == conn["alert_mid"]:
+                # half close: this side sends close_notify while the peer keeps sending (only used by differential
+                # checks; data after an alert is outside the ground-truth oracles)
+                fl[rec["d"]].append(alert_rec(rec["d"]))
             fl[rec["d"]].append(app_rec(rec["d"], rec))
             idx += 1
         if gi == 0 and conn.get("early_data_side"):
